@@ -5,6 +5,8 @@ import (
 	"fmt"
 	"math/rand"
 	"strings"
+	"sync/atomic"
+	"time"
 )
 
 // Scheduled (interleaved) executions: C06 (single-row writes), C18 (scans vs writers),
@@ -129,7 +131,17 @@ From Emu.BT Require Import Types Server Check Conc Bulk ConcCheck.
 
 // runConc executes one scheduled case on an engine.  The schedule is followed by a recorded
 // round-robin drain so that every thread finishes.
+// wedgedCases counts scheduled cases whose threads never finished (the implementation deadlocked or
+// hung): each costs seconds of timeouts, so after a few the remaining cases of the run are not
+// executed (the ones recorded already fail the comparison with the model).
+var wedgedCases atomic.Int32
+
+const maxWedged = 8
+
 func runConc(en Engine, setup []Call, threads [][]Call, sched []int, final []Call, bulk []BulkRow, tag string) *ConcCase {
+	if wedgedCases.Load() >= maxWedged {
+		return nil
+	}
 	st, cleanup := en.mk()
 	defer cleanup()
 	e := NewEmu(st)
@@ -142,24 +154,37 @@ func runConc(en Engine, setup []Call, threads [][]Call, sched []int, final []Cal
 	}
 	s := NewSched(e, threads)
 	step := func(i int) {
-		o := s.Step(i)
-		c.Sched = append(c.Sched, i)
-		c.Obs = append(c.Obs, o)
+		s.StepPref(i, func(j int, o Outcome) {
+			c.Sched = append(c.Sched, j)
+			c.Obs = append(c.Obs, o)
+		})
 	}
 	for _, i := range sched {
 		step(i)
 	}
-	for round := 0; round < 400; round++ {
-		busy := false
+	busy := true
+	deadline := time.Now().Add(30 * time.Second)
+	for round := 0; round < 400 && busy && time.Now().Before(deadline); round++ {
+		busy = false
 		for i, t := range s.threads {
 			if !t.dead && (t.running || t.parked != "" || len(t.todo) > 0) {
 				busy = true
 				step(i)
 			}
 		}
-		if !busy {
-			break
+	}
+	for _, t := range s.threads {
+		if t.dead {
+			busy = true
 		}
+	}
+	if busy {
+		// some thread never finished: the table lock may be held for ever, so the final probes
+		// (which would each wait for the watchdog) are not run; the recorded steps already differ
+		// from the model, where every schedule drains
+		wedgedCases.Add(1)
+		c.Final = nil
+		return c
 	}
 	for _, f := range final {
 		c.FinalR = append(c.FinalR, e.Exec(f))
@@ -208,8 +233,8 @@ func c06Request(kind int, key []byte, variant int) Call {
 		// check-and-mutate on a predicate state only one of two can see: "s" equals x -> set it to something else
 		return Call{Req: Req{Kind: "cam", Table: concTable, Key: key,
 			Pred: &Filter{Kind: "chain", Subs: []*Filter{{Kind: "qualregex", Rx: &Regex{Re: &Re{Kind: "lit", B: 's'}}}, {Kind: "valregex", Rx: &Regex{Re: &Re{Kind: "lit", B: 'x'}}}}},
-			TM: []Mutation{{Kind: "set", Fam: "cf", Q: []byte("s"), Ts: 1000, V: []byte(fmt.Sprint("won", variant))}},
-			FM: []Mutation{{Kind: "set", Fam: "cf2", Q: []byte("lost"), Ts: 1000, V: []byte(fmt.Sprint("lost", variant))}}}, Now: now}
+			TM:   []Mutation{{Kind: "set", Fam: "cf", Q: []byte("s"), Ts: 1000, V: []byte(fmt.Sprint("won", variant))}},
+			FM:   []Mutation{{Kind: "set", Fam: "cf2", Q: []byte("lost"), Ts: 1000, V: []byte(fmt.Sprint("lost", variant))}}}, Now: now}
 	case 3:
 		return Call{Req: Req{Kind: "rmw", Table: concTable, Key: key, Rules: []Rule{{Kind: "incr", Fam: "cf", Q: []byte("n"), Amt: 1}, {Kind: "append", Fam: "cf", Q: []byte("s"), V: []byte(fmt.Sprint("+", variant))}}}, Now: now}
 	}
@@ -262,6 +287,10 @@ func runConcJobs(sink *Sink, jobs []concJob) {
 		results[i] = runConc(j.en, j.setup, j.threads, j.sched, j.final, j.bulk, j.tag)
 	})
 	for _, c := range results {
+		if c == nil {
+			sink.stats.Skipped++
+			continue
+		}
 		js, _ := json.Marshal(c)
 		nt := false
 		for _, o := range c.Obs {
